@@ -35,8 +35,10 @@ def run_magnet(case):
     try:
         tree = case["tree"]
         root = alpha.materialize(tree, os.path.join(sbx, "p"))
-        os.makedirs(os.path.join(sbx, "o"))
-        out = os.path.join(sbx, "o", "m.torrent")
+        from .core import odd_meta
+        mdir, mname = odd_meta(case)
+        os.makedirs(os.path.join(sbx, mdir))
+        out = os.path.join(sbx, mdir, mname)
         v = case["version"]
         rec = {"id": case["id"], "op": "magnet", "clauses": case["clauses"], "request": case["request"],
                "status": "ok", "scheme_ok": False, "xt": [], "dn": [], "tr": [], "ws": [], "other": [],
